@@ -123,11 +123,88 @@ def lst1(units, R):
                 before = cfg.entry.id in reach(S, False)
                 after = cfg.exit.id in reach(S, True)
                 ok = not (before and after)
+            # a tail link written through X->child *before* X->child is switched lands in the old head: it only counts
+            # if another tail-link store follows the child store on that path
+            if ok and S not in P:
+                allP = P | PV
+                for px in P:
+                    if cfg.nodes[px].expr is not None and any(
+                            c2.get('k') == 'call' and callee_name(c2) == 'cJSON_Delete' for c2 in walk(cfg.nodes[px].expr)):
+                        continue
+                    mid = cfg.reachable(px, stop=(allP - {px}) | {S})
+                    reaches_S = S in {y for x in mid | {px} for (y, _l) in cfg.succ[x]} or S in mid
+                    if not reaches_S:
+                        continue
+                    after_S = cfg.reachable(S, stop=allP)
+                    if cfg.exit.id in after_S:
+                        ok = False
+                        R.ob('LST1', fn, a, 'tail link of %s is not written into the old head' % X, False,
+                             '%s->prev is stored at line %d, then %s is re-assigned at line %d and no tail link is stored afterwards: '
+                             'the back link went into the node that stopped being the first child'
+                             % (xchild, cfg.nodes[px].line, xchild, cfg.nodes[S].line), key=key + ':stale-order')
+                        break
+                if not ok:
+                    continue
             R.ob('LST1', fn, a, 'child store %s restores the tail link on every path' % expr_str(a), ok,
                  'every path through the store passes a store to %s->prev (or the child is NULL / the container is released)'
                  % (Vs if V.get('k') != 'call' else xchild) if ok else
                  'a path through this store reaches the return without storing %s->prev: the first child\'s back link can be stale'
                  % xchild, key=key)
+    # calls of a function that re-links a sibling chain handed to it as X->child (sort_list): from the call on, the
+    # first child's back link is stale until X->child->prev is stored again
+    relinkers = set()
+    for u, fn in all_functions(units):
+        if 'struct cJSON *' not in u.ty(fn.ret)['s']:
+            continue
+        cj = [p for p in fn.params if 'struct cJSON *' in u.ty(p['ty'])['s']]
+        if cj and any(strip_casts(a['l']).get('k') == 'mem' and strip_casts(a['l'])['f'] == 'next' for a in assignments(fn)) \
+                and not _field_stores(fn, 'child'):
+            relinkers.add(fn.name)
+    nrel = 0
+    for u, fn in all_functions(units):
+        if fn.name in relinkers:
+            continue
+        cfg = None
+        for c in fn.calls():
+            if callee_name(c) not in relinkers or not c['args']:
+                continue
+            a0 = strip_casts(c['args'][0])
+            xchild = None
+            if a0.get('k') == 'mem' and a0['f'] == 'child':
+                xchild = expr_str(a0)
+            elif a0.get('k') == 'ref':
+                # a local that was loaded from X->child
+                for a in assignments(fn):
+                    if is_ref(a['l']) and strip_casts(a['l'])['d'] == a0['d'] and strip_casts(a['r']).get('k') == 'mem' and \
+                            strip_casts(a['r'])['f'] == 'child':
+                        xchild = expr_str(strip_casts(a['r']))
+                for d in fn.locals():
+                    if d['d'] == a0['d'] and 'init' in d and strip_casts(d['init']).get('k') == 'mem' and strip_casts(d['init'])['f'] == 'child':
+                        xchild = expr_str(strip_casts(d['init']))
+            if xchild is None:
+                continue
+            nrel += 1
+            cfg = cfg or fn.cfg()
+            S = node_containing(cfg, c).id
+            X = xchild[:-len('->child')] if xchild.endswith('->child') else xchild[:-len('.child')]
+            P = {node_containing(cfg, pa).id for (pa, pl) in _field_stores(fn, 'prev') if expr_str(strip_casts(pl['b'])) == xchild}
+            names = {xchild, X}
+            seen = {S}
+            work = [S]
+            while work:
+                x = work.pop()
+                for (y, lab) in cfg.succ[x]:
+                    if lab is not None and lab[0] in ('T', 'F') and _null_side(lab[1], lab[0] == 'T', names):
+                        continue
+                    if y in P or y in seen:
+                        continue
+                    seen.add(y)
+                    work.append(y)
+            ok = cfg.exit.id not in seen
+            R.ob('LST1', fn, c, 'after %s re-linked the chain of %s the tail link is restored on every path' % (callee_name(c), X), ok,
+                 'every path from the call passes a store to %s->prev' % xchild if ok else
+                 'a path returns after %s without storing %s->prev: the order of the chain may have changed under an unchanged head'
+                 % (callee_name(c), xchild), key='relink:%s:%s' % (callee_name(c), xchild))
     R.floor('LST1', 'non-null child stores', n, 15)
 
 
